@@ -77,6 +77,7 @@ class Env(object):
         stub("PFuzzy", numpy.ma.array([0.5, -1.0]), fuzzy=True)
         stub("PNum", 5)
         self.prog.add_command(lib["Src"], "USrc", {"V": 1})
+        self.prog.add_command(lib["NoOut"], "UNoOut", {"V": 2})
         self.prog.add_command(lib["EEMSRead"], "URead", {"InFileName": os.path.join(self.tmp, "nope.csv"), "InFieldName": "a"})
         self.prog.add_command(lib["CvtToFuzzy"], "UFz", {"InFieldName": "URead"})
         self.prog.add_command(lib["PrintVars"], "UPrint", {"InFieldNames": ["URead"]})
@@ -85,6 +86,7 @@ class Env(object):
             "PFuzzy": {"finished": True, "fuzzy": True, "result": "array", "out": None},
             "PNum": {"finished": True, "fuzzy": False, "result": "number", "out": None},
             "USrc": {"finished": False, "fuzzy": False, "out": "Parameter"},
+            "UNoOut": {"finished": False, "fuzzy": False, "out": None},
             "URead": {"finished": False, "fuzzy": False, "out": "Data"},
             "UFz": {"finished": False, "fuzzy": True, "out": "Data"},
             "UPrint": {"finished": False, "fuzzy": False, "out": "Boolean"},
@@ -500,7 +502,7 @@ RAW_POOL = [
     {"t": "bool", "v": 1}, {"t": "bool", "v": 0},
     S("12"), S("-7"), S("+3"), S("1.5"), S(".5"), S("2."), S("abc"), S(""), S("true"), S("False"), S("TRUE"), S("0"), S("1"),
     S("2"), S(" 7 "), S("1e5"), S("nan"), S("Float"), S("Integer"), S("Positive Float"), S("Fuzzy"), S("float"),
-    S("PData"), S("PFuzzy"), S("PNum"), S("USrc"), S("URead"), S("UFz"), S("UPrint"), S("Missing"), S("café"),
+    S("PData"), S("PFuzzy"), S("PNum"), S("USrc"), S("UNoOut"), S("URead"), S("UFz"), S("UPrint"), S("Missing"), S("café"),
     {"t": "path", "kind": "abs_existing"}, {"t": "path", "kind": "abs_missing"}, {"t": "path", "kind": "rel_existing"},
     {"t": "path", "kind": "rel_missing"},
     L(), L(I(1), I(2)), L(Fl(2.5), Fl(0.5)), L(I(3), I(1), I(2)), L(S("b"), S("a")), L(L(I(2), I(1)), L(I(0))), L(Fl(0.5), S("2")), L(S("a"), S("b")), L(S("true"), I(0)), L(L(I(1)), L(I(2), Fl(3.5))), L(L()),
@@ -509,8 +511,8 @@ RAW_POOL = [
     {"t": "argitems", "items": [I(1), Fl(2.5)]}, {"t": "argitems", "items": [S("PData")]},
     {"t": "dict", "items": []}, {"t": "dict", "items": [[S("a"), S("b")]]}, {"t": "dict", "items": [[I(1), Fl(2.5)], [S("k"), I(3)]]},
     {"t": "cmd", "name": "PData"}, {"t": "cmd", "name": "PFuzzy"}, {"t": "cmd", "name": "PNum"}, {"t": "cmd", "name": "USrc"},
-    {"t": "cmd", "name": "URead"}, {"t": "cmd", "name": "UFz"}, {"t": "cmd", "name": "UPrint"},
-    L({"t": "cmd", "name": "PData"}, {"t": "cmd", "name": "UFz"}),
+    {"t": "cmd", "name": "URead"}, {"t": "cmd", "name": "UFz"}, {"t": "cmd", "name": "UPrint"}, {"t": "cmd", "name": "UNoOut"},
+    L({"t": "cmd", "name": "PData"}, {"t": "cmd", "name": "UFz"}), L(S("UNoOut"), S("USrc")),
     {"t": "type", "name": "float"}, {"t": "type", "name": "int"}, {"t": "type", "name": "numpy.float64"},
     {"t": "type", "name": "numpy.uint"}, {"t": "type", "name": "str"},
 ]
@@ -554,8 +556,8 @@ def raw_scalars():
         st.from_regex(r"[+-]?\d{1,6}", fullmatch=True).map(S),
         st.from_regex(r"[+-]?(\d{1,4}\.\d{0,4}|\.\d{1,4})", fullmatch=True).map(S),
         st.text(alphabet=st.sampled_from(list("abcTRUEfalse _-/.é")), max_size=8).map(S),
-        st.sampled_from(["PData", "PFuzzy", "PNum", "USrc", "URead", "UFz", "UPrint", "Nope", "True", "FALSE", "Float", "Integer"]).map(S),
-        st.sampled_from(["PData", "PFuzzy", "PNum", "USrc", "URead", "UFz", "UPrint"]).map(lambda n: {"t": "cmd", "name": n}),
+        st.sampled_from(["PData", "PFuzzy", "PNum", "USrc", "UNoOut", "URead", "UFz", "UPrint", "Nope", "True", "FALSE", "Float", "Integer"]).map(S),
+        st.sampled_from(["PData", "PFuzzy", "PNum", "USrc", "UNoOut", "URead", "UFz", "UPrint"]).map(lambda n: {"t": "cmd", "name": n}),
         st.sampled_from(["abs_existing", "abs_missing", "rel_existing", "rel_missing"]).map(lambda k: {"t": "path", "kind": k}),
     )
 
